@@ -15,15 +15,19 @@
 (*                                                                         *)
 (* What is ASSUMED (C15's business): consensus.  `log` is the one agreed   *)
 (* order of proposals; a node's raft core hands it, in a Ready, the next   *)
-(* entries of `log` it does not have yet and the commit index             *)
-(* CommitFor(n, .) = the largest index held durably (WAL) by a quorum,     *)
-(* where the node itself is counted with the entries of the Ready being    *)
-(* built (etcd raft 3.5: a leader matches itself before persisting; this   *)
-(* is what makes a single-node cluster emit Entries and CommittedEntries   *)
-(* for the same index in ONE Ready, so that only the order WalSave <       *)
-(* Publish inside the loop protects the write).  Entries are never         *)
-(* re-ordered or truncated (no conflicting leaders); a lagging node whose  *)
-(* next entry every other live node has compacted receives a snapshot.     *)
+(* entries of `log` it does not have yet and the commit index              *)
+(* CommitFor(.) = the largest index held DURABLY (WAL) by a quorum.  The   *)
+(* copied-in raft acknowledges a node's own entries only in Advance, i.e.  *)
+(* after the loop has saved them (etcd/raft/raft.go advance(): "the leader *)
+(* needs to self-ack the entries just appended"), and followers answer     *)
+(* through Send, which the loop orders after WalSave; so an index is       *)
+(* committed only when a quorum has SAVED it - observed on real traces: a  *)
+(* single-node cluster emits Entries in one Ready and the same index as    *)
+(* CommittedEntries in the next.  A follower that is catching up can still *)
+(* receive an index as Entries and CommittedEntries in ONE Ready (c2 may   *)
+(* exceed what the node itself has saved).  Entries are never re-ordered   *)
+(* or truncated (no conflicting leaders); a lagging node whose next entry  *)
+(* every other live node has compacted receives a snapshot.                *)
 (*                                                                         *)
 (* The Ready loop is split exactly as raft.go orders it; the pc value of a *)
 (* node names the NEXT stage, and the hook event that the verif build      *)
@@ -98,10 +102,9 @@ QEmpty(n) == applyQ[n].lo > applyQ[n].hi
 
 \* what the node holds durably: WAL entries, or everything up to a snapshot that has both marker and file
 Persisted(m) == wal[m].ents
-\* commit index visible to node n in a Ready that carries entries up to k
-CommitFor(n, k) ==
-  LET held(m) == IF m = n THEN k ELSE Persisted(m)
-      ok == {i \in 0..k : \E Q \in Quorums : \A m \in Q : held(m) >= i}
+\* commit index visible in a Ready of a node that holds (in memory) the entries up to k
+CommitFor(k) ==
+  LET ok == {i \in 0..k : \E Q \in Quorums : \A m \in Q : Persisted(m) >= i}
   IN CHOOSE i \in ok : \A j \in ok : j <= i
 
 \* GetSnapshot as built: json.Marshal(map) - a list is a cyclic linked list (error -> log.Panic), every other
@@ -151,7 +154,7 @@ TakeReady(n) ==
                                            c2 |-> appliedIndex[n], hc |-> Max(wal[n].commit, stor[m].snap)]]
                /\ pc' = [pc EXCEPT ![n] = "savesnap"]
         ELSE LET e2 == IF canEnts THEN Len(log) ELSE e1 - 1
-                 c2 == Max(appliedIndex[n], Max(Min(wal[n].commit, e2), CommitFor(n, e2)))
+                 c2 == Max(appliedIndex[n], Max(Min(wal[n].commit, e2), CommitFor(e2)))
              IN /\ (e2 >= e1 \/ c2 > appliedIndex[n])
                 /\ rd' = [rd EXCEPT ![n] = [snap |-> 0, data |-> EmptyKV, e1 |-> e1, e2 |-> e2, c2 |-> c2, hc |-> c2]]
                 /\ pc' = [pc EXCEPT ![n] = "walsave"]
